@@ -13,3 +13,73 @@ LEVEL_NOTE = 'Trusted: Coq kernel; hand-written model Model/Core.v + Model/Prog.
 FAMILIES = [
     progs.program_family("programs", oracles.oracle_c08, 150, 3000, deep=dict(depth=6), **dict(p_globals=0.4, fault=0.8, registry_rate=0.4, p_fault_ser=0.1)),
 ]
+
+
+# ---- concurrent senders: the accounting must also hold when two threads are inside send at once ----
+import json
+from lib.framework import Family
+
+
+def gen_threads(rng, tier):
+    out = []
+    for i in range(0, 60 if tier == "quick" else 160, 2 if tier == "quick" else 1):
+        out.append({"k": 2, "segments": [[0, i], [1, 2000], [0, 2000]], "bad": "always"})
+        out.append({"k": 2, "segments": [[1, i], [0, 2000], [1, 2000]], "bad": "first"})
+    for _ in range(30 if tier == "quick" else 600):
+        k = rng.choice([2, 3])
+        out.append({"k": k, "sched": [rng.randrange(k) for _ in range(rng.randrange(0, 300))], "bad": rng.choice(["always", "first", "odd"])})
+    return out
+
+
+def impl_threads(case):
+    from lib.linesched import LineScheduler, segments_to_schedule
+    from eliot import log_message, _output
+    d = _output.Destinations()
+    _output.Logger._destinations = d
+    good, calls = [], [0]
+
+    def bad(m):
+        n = calls[0]
+        calls[0] += 1
+        fail = case["bad"] == "always" or (case["bad"] == "first" and n < 2) or (case["bad"] == "odd" and n % 2 == 1)
+        if fail and m.get("message_type") != "eliot:destination_failure":
+            raise RuntimeError("bad destination")
+    failed = []
+
+    def bad_rec(m):
+        try:
+            bad(m)
+        except RuntimeError:
+            failed.append(dict(m))
+            raise
+    d.add(lambda m: good.append(dict(m)), bad_rec)
+    s = LineScheduler(files=("eliot/_output.py",))
+
+    def make(t):
+        return lambda: log_message(message_type="thread%d" % t, n=t)
+    sched = case.get("sched")
+    if sched is None:
+        sched = segments_to_schedule([tuple(x) for x in case["segments"]])
+    s.run([make(t) for t in range(case["k"])], sched)
+    from lib.progs import expected_render
+    return {"good_types": [m.get("message_type") for m in good],
+            "n_failed": len(failed), "failed_renders": sorted(expected_render(m) for m in failed),
+            "report_renders": sorted(m.get("message") for m in good if m.get("message_type") == "eliot:destination_failure"),
+            "thread_errors": [r for r in s.results if r and r[0] != "ok"], "steps": len(s.trace)}
+
+
+def oracle_threads(case, obs):
+    if obs["thread_errors"]:
+        return "a logging call raised in a thread: %r" % obs["thread_errors"]
+    want = sorted("thread%d" % t for t in range(case["k"]))
+    got = sorted(t for t in obs["good_types"] if t != "eliot:destination_failure")
+    if got != want:
+        return "healthy destination received %r, expected each message once: %r" % (got, want)
+    if obs["report_renders"] != obs["failed_renders"]:
+        return "%d destination failures but %d reports (or reports about the wrong messages)" % (obs["n_failed"], len(obs["report_renders"]))
+    return None
+
+
+FAMILIES.append(Family("threads", gen_threads, impl_threads, None, None, oracle_threads,
+                       lambda case, obs: json.dumps(case) if isinstance(obs, dict) and obs.get("n_failed", 0) >= 2 else None,
+                       shard=30, case_timeout=30, describe=lambda c: "threads:%d:%s" % (c["k"], c["bad"])))
